@@ -40,7 +40,9 @@ pub const LKS: [Lk; 5] = [Lk::Plain(L6A), Lk::Plain(L3A), Lk::Plain(Lbl::Bcast),
 
 #[derive(Clone, Debug, PartialEq, Eq, Hash)]
 pub enum Tx {
-    Start,
+    /// nothing sent yet; the list holds the buffer sizes of earlier encap calls that FAILED and left the
+    /// encapsulator in a different state than before (none on a sender whose failing calls are state-neutral)
+    Start(Vec<usize>),
     At(Ctx),
     Done,
 }
@@ -85,7 +87,7 @@ impl System for Case {
     type Op = usize;
     fn init(&self) -> Vec<St> {
         let (_, rx) = self.prepare();
-        vec![St { tx: Tx::Start, rx }]
+        vec![St { tx: Tx::Start(vec![]), rx }]
     }
     fn ops(&self, s: &St) -> Vec<usize> {
         if s.tx == Tx::Done {
@@ -104,9 +106,29 @@ impl System for Case {
         let mut buf = vec![0u8; b];
         acc.calls += 1;
         let out = match &s.tx {
-            Tx::Start => {
+            Tx::Start(rejected) => {
+                // "buffers rejected as too small are skipped": the rejected calls are made on the SAME encapsulator
                 let (mut enc, _) = self.prepare();
-                do_encap(&mut enc, &self.pdu, self.frag_id, self.pt, l, &mut buf)
+                for &r in rejected {
+                    let mut rb = vec![0u8; r];
+                    let _ = do_encap(&mut enc, &self.pdu, self.frag_id, self.pt, l, &mut rb);
+                }
+                let before = format!("{:?}", enc);
+                let o = do_encap(&mut enc, &self.pdu, self.frag_id, self.pt, l, &mut buf);
+                if let EncOut::Err(e) = &o {
+                    if b >= 13 {
+                        viols.push((format!("C02|rejects-buffer>=13|{}|{}", e, reg), format!("{}: a buffer of {} bytes (>= 13) is rejected with {} in sender state {:?}", self.desc, b, e, s.tx)));
+                    }
+                    acc.outcome(&format!("encap:{}:{}", o.class(), reg));
+                    // a failing call that changed the encapsulator leads to a distinct start state (bounded)
+                    if format!("{:?}", enc) != before && rejected.len() < 2 {
+                        let mut r2 = rejected.clone();
+                        r2.push(b);
+                        return StepOut { next: Some(St { tx: Tx::Start(r2), rx: s.rx.clone() }), viols };
+                    }
+                    return StepOut { next: Some(s.clone()), viols };
+                }
+                o
             }
             Tx::At(ctx) => {
                 let enc = Encapsulator::new(DefaultCrc {});
@@ -114,7 +136,7 @@ impl System for Case {
             }
             Tx::Done => unreachable!(),
         };
-        acc.outcome(&format!("{}:{}:{}", if s.tx == Tx::Start { "encap" } else { "encap_frag" }, out.class(), reg));
+        acc.outcome(&format!("{}:{}:{}", if matches!(s.tx, Tx::Start(_)) { "encap" } else { "encap_frag" }, out.class(), reg));
         let (n, next_tx) = match &out {
             EncOut::Panic(pn) => {
                 viols.push((format!("C02|sender-panic|{}|{}", Panicked(pn.clone()).coarse(), reg), format!("{} buffer {}: sender panics at {}", self.desc, b, pn)));
@@ -133,14 +155,14 @@ impl System for Case {
         // liveness rank: a buffer >= 13 must make strict progress
         if b >= 13 {
             let before = match &s.tx {
-                Tx::Start => usize::MAX,
+                Tx::Start(_) => usize::MAX,
                 Tx::At(c) => p.saturating_sub(c.pos as usize) + 1,
                 Tx::Done => 0,
             };
             let after = match &next_tx {
                 Tx::At(c) => p.saturating_sub(c.pos as usize) + 1,
                 Tx::Done => 0,
-                Tx::Start => usize::MAX,
+                Tx::Start(_) => usize::MAX,
             };
             if after >= before {
                 viols.push((format!("C02|no-progress|{}", reg), format!("{}: buffer of {} bytes accepted without progress ({:?} -> {:?})", self.desc, b, s.tx, next_tx)));
@@ -154,7 +176,7 @@ impl System for Case {
         let (dout, rx2) = step_decap(&s.rx, &DefaultCrc {}, &TableMgr::none(), &buf[..n]);
         acc.calls += 1;
         acc.compared += 1;
-        let kind = if s.tx == Tx::Start { "first" } else { "next" };
+        let kind = if matches!(s.tx, Tx::Start(_)) { "first" } else { "next" };
         match (&next_tx, &dout) {
             (Tx::At(_), DecapOut::Fragmented { meta, consumed }) => {
                 if *consumed != n {
